@@ -4,7 +4,7 @@
    claims below the top level, names that are prefixes of one another.  Strategies: None / Top / All / every single path /
    all paths; a linear family of selections (everything, nothing, only-this-node, all-but-this-node).  Same invariants as MC_roundtrip. *)
 EXTENDS MCUniverse
-CONSTANTS Decoys, HolderKeys, ShapeIdx
+CONSTANTS Decoys, HolderKeys, ShapeIdx, PairStrats
 
 V(s) == JStr(s)
 O(f) == JObj(f)
@@ -30,6 +30,9 @@ Shapes == <<
 >>
 Universe3 == {Root(Shapes[i], "i1") : i \in ShapeIdx}
 StratsS(U) == {NoneS, TopS, AllS, CustomS(UserPaths(U))} \cup {CustomS({p}) : p \in UserPaths(U)}
+              \cup (IF PairStrats THEN {CustomS({p, q}) : p \in UserPaths(U), q \in UserPaths(U)} ELSE {})
+\* narrowing over the linear family: any member of the family whose selected nodes are a subset of the current ones
+SubSelsLinear(cr, gh) == LET at == cr[gh.c].at  now == SelPaths(at, gh.sel, "") IN {s \in LinearSels(at) : SelPaths(at, s, "") \subseteq now}
 Plans == UNION {{<<[U |-> U, S |-> S, nd |-> nd, key |-> "K1", alg |-> "ES256", hk |-> hk, exp |-> FarExp, nbf |-> NoNbf]>>
              : S \in StratsS(U), nd \in Decoys, hk \in HolderKeys} : U \in Universe3}
 KB1 == [key |-> "H1", alg |-> "ES256", aud |-> "aud1", nonce |-> "n1"]
